@@ -207,7 +207,7 @@ def main(argv=None):
     if ndis > max(5, m["evaluations"] // 100):
         sys.stderr.write("WARNING high-dismissal-rate property=%s dismissed=%d of %d\n" % (args.id, ndis, m["evaluations"]))
     health = None
-    if hasattr(prop, "health"):
+    if hasattr(prop, "health") and not nviol and not args.only:
         health = prop.health(m, args.tier)
         if health:
             sys.stderr.write("HARNESS-ERROR property=%s generator health: %s\n" % (args.id, health))
